@@ -50,6 +50,19 @@ var scenarios = map[string]scenario{}
 
 func registerScenario(name string, fn scenario) { scenarios[name] = fn }
 
+// two-pass scenarios: a fault-free reference pass of the seed tells where faults can be placed
+var twoPass = map[string]func(seed uint64, r1 *runResult) map[string]int{}
+
+func registerTwoPass(name string, f func(seed uint64, r1 *runResult) map[string]int) { twoPass[name] = f }
+
+func copyParams(p map[string]int) map[string]int {
+	o := map[string]int{}
+	for k, v := range p {
+		o[k] = v
+	}
+	return o
+}
+
 func thorough() bool { return *flagTier == "thorough" }
 
 // watchdog runs outside any bubble (real clock).
@@ -138,15 +151,42 @@ func TestVsim(t *testing.T) {
 		}
 		current = fmt.Sprintf("prop=%s seed=%d", *flagProp, seed)
 		vsimProgress.Add(1)
+		runParams := copyParams(params)
+		if derive := twoPass[*flagProp]; derive != nil {
+			if _, given := runParams["crash_kind"]; !given {
+				cryptotest.SetGlobalRandom(t, seed)
+				r1 := runOne(t, sc, runOpts{seed: seed, prop: *flagProp, params: copyParams(params)})
+				if r1.Violation != nil || r1.Aborted != "" {
+					// the reference pass itself has a verdict: report it as it is
+					r1.Params = copyParams(params)
+					r1.Params["crash_kind"] = -1 // replay: reference pass only
+					if r1.Violation != nil {
+						cryptotest.SetGlobalRandom(t, seed)
+						r1b := runOne(t, sc, runOpts{seed: seed, prop: *flagProp, keepTapes: true, params: copyParams(params)})
+						r1.Tapes, r1.Config = r1b.Tapes, r1b.Config
+					}
+					_ = enc.Encode(r1)
+					if r1.Violation != nil && *flagStop && ownsViolation(r1.Violation.Prop) {
+						break
+					}
+					seed += *flagStride
+					continue
+				}
+				for k, v := range derive(seed, r1) {
+					runParams[k] = v
+				}
+			}
+		}
 		cryptotest.SetGlobalRandom(t, seed)
-		res := runOne(t, sc, runOpts{seed: seed, prop: *flagProp, verbose: *flagVerbose, debugLog: *flagDebug, keepTapes: *flagTapes, params: params})
+		res := runOne(t, sc, runOpts{seed: seed, prop: *flagProp, verbose: *flagVerbose, debugLog: *flagDebug, keepTapes: *flagTapes, params: copyParams(runParams)})
+		res.Params = runParams
 		if !*flagTapes && res.Violation == nil {
 			res.Config = nil
 		}
 		if res.Violation != nil && res.Tapes == nil {
 			// re-run is not needed: ask for tapes up front when a violation is found
 			cryptotest.SetGlobalRandom(t, seed)
-			res2 := runOne(t, sc, runOpts{seed: seed, prop: *flagProp, keepTapes: true, params: params})
+			res2 := runOne(t, sc, runOpts{seed: seed, prop: *flagProp, keepTapes: true, params: copyParams(runParams)})
 			if res2.Violation == nil || res2.Hash != res.Hash {
 				res.Notes = append(res.Notes, fmt.Sprintf("NONDETERMINISM on re-run: hash %s vs %s, violation %v", res.Hash, res2.Hash, res2.Violation))
 				res.Aborted = "nondeterminism: re-run of the violating seed differs"
